@@ -526,6 +526,10 @@ def oracle(case, obs):
     atoms0 = list(_all_atoms(d0)) if d0 is not None else []
     kinds = [k for k in (collision_kind(a) for a in atoms0) if k]
     ui0 = obs.get("ui0")
+    if ui0 is not None:
+        from props import c15
+        if not c15.wf_ui(ui0):
+            return []      # switch members outside C15's WfUi (a dependency on a parameter that is neither optional nor boolean, ...)
     none_bool = ui0 is not None and any(is_jdict(f) and any(jhas(f, m) and jget(f, m) is None for m in ("enabled", "main", "optional"))
                                         for _, f in ui0["d"])
     if stage in ("write", "read", "data1"):
@@ -569,27 +573,27 @@ def oracle(case, obs):
                 ks = [k for k in (collision_kind(a) for a in _all_atoms(m0[name])) if k]
                 if "nan" in ks:
                     continue
-                key = ks[0] if ks else "value-not-round-tripped"
+                key = ks[0] if ks else ("group-switch-overrides-member-enabled" if _group_off(ui0, name) else "value-not-round-tripped")
                 fails.append({"key": key, "what": f"parameter {name}: {m0[name]!r} before, {m1[name]!r} after the round trip"})
                 break
         e0, e1 = obs.get("enabled0", {}), obs.get("enabled1", {})
         for name, en in e0.items():
             if name in e1 and e1[name] != en:
-                if _group_off(ui0, name):
-                    continue    # the member's state is governed by its (switched-off) group
-                fails.append({"key": "enabled-state-changed", "what": f"form {name}: enabled {en} before, {e1[name]} after"})
+                key = "group-switch-overrides-member-enabled" if _group_off(ui0, name) else "enabled-state-changed"
+                fails.append({"key": key, "what": f"form {name}: enabled {en} before, {e1[name]} after"})
                 break
     return fails
 
 
 def _group_off(ui, name):
+    """the form is a member of a group that has a switch (first member carrying a groupOptional member) other than itself"""
     f = jget(ui, name)
     if not (is_jdict(f) and jhas(f, "group")):
         return False
     g = jget(f, "group")
-    for _, m in ui["d"]:
+    for n, m in ui["d"]:
         if is_jdict(m) and jhas(m, "group") and jget(m, "group") == g and jhas(m, "groupOptional"):
-            return jget(m, "enabled", True) is False
+            return n != name
     return False
 
 
